@@ -204,19 +204,32 @@ META["C16"] = {
 }
 
 META["C07"] = {
-    "level": "exploration",
-    "level_text": "Bounded contract check on the real code with inspect.Signature.bind as the "
-    "independent oracle: every signature with 0..3 parameters x every trailing-default subset x every "
-    "call shape Python accepts (and shapes missing a required parameter), at lambda depth 0..2, with "
-    "one method name shared by three classes with different defaults and re-used lambda parameter "
-    "names, for methods and func_adl_callable functions; stream operators keep their arguments. "
-    "(The deductive proof of the filler's loop invariant planned in DESIGN §4 C07 is not in this "
-    "build yet.)",
-    "level_note": "Bounded stand-in; nothing counted as proved.",
-    "technique": "bounded contract check of the _fill_in_default_arguments / remap_by_types contract against inspect.Signature.bind (labelled stand-in for the planned loop-invariant proof)",
-    "p_keys": False,
-    "explanation": "bounded only",
-    "assumptions": ["signatures bounded to <= 3 parameters, nesting depth <= 2"],
+    "level": "other",
+    "level_text": "The signature walk is under contract and discharged for all inputs: "
+    "_find_keyword (result == (kw_value, kw_without) of the keyword list, by a loop invariant over "
+    "the ghost prefix/suffix) and _fill_in_default_arguments (for every parameter list of "
+    "inspect.signature(func) and every ast.Call: result.args == call.args ++ bind_tail(P, n0, kws), "
+    "result.keywords == kws_left(P, n0, kws), ValueError iff not callable or a parameter without "
+    "default is left unbound; loop invariant with nine clauses, list lemmas proved by structural "
+    "induction). bind_tail / kws_left / fill_missing are the spec functions in spec/fill.py, "
+    "executed natively by engine B against inspect.Signature.bind as an independent oracle. The "
+    "routing of call sites to the filler (process_method_call, process_function_call, "
+    "fixup_ast_from_modifications, nested lambdas) is covered only by the bounded contract check: "
+    "every signature with 0..3 parameters x every trailing-default subset x every call shape "
+    "Python accepts (and shapes missing a required parameter), lambda depth 0..2, one method name "
+    "shared by three classes, re-used lambda parameter names, methods and func_adl_callable "
+    "functions; stream operators keep their arguments.",
+    "level_note": "Proved: the two functions of the signature walk against their contracts. "
+    "Assumed: inspect.signature / typing.get_type_hints modelled as an uninterpreted parameter list "
+    "of Param(name, default) records; copy.copy of a Call returns an equal fresh node. Bounded "
+    "(never counted as proved): the call-site routing in type_transformer.",
+    "technique": "sidecar contracts on _find_keyword and _fill_in_default_arguments (loop invariants over ghost prefix/suffix, spec functions bind_tail/kws_left/fill_missing) discharged by the pyvc VC generator with z3; list lemmas by structural induction; call-site routing by a bounded contract check against inspect.Signature.bind",
+    "p_keys": True,
+    "explanation": "signature walk proved; routing bounded",
+    "assumptions": ["inspect.signature(func).parameters modelled as an arbitrary list of Param(name, default) records (trusted model)",
+                    "typing.get_type_hints(func) modelled as an arbitrary mapping (return type not specified by C07)",
+                    "copy.copy(call) modelled as a fresh node with equal fields",
+                    "call-site routing (type_transformer.process_method_call / process_function_call / fixup_ast_from_modifications): bounded to signatures with <= 3 parameters, nesting depth <= 2"],
 }
 
 META["C08"] = {
